@@ -519,3 +519,67 @@ Proof.
     eapply (accepted_history_rounds c (c03_round c)); eauto; [|apply initial_WInv; exact Hcs].
     intros now t r t' Hinv Hnow Hwr Har. exact (accepted_round_c03 c now t r t' Hcw Hcs Hwr Hinv Hnow Har).
 Qed.
+
+(* ---------- with bounded expiries: entries only grow along accepted rounds ---------- *)
+Definition durations_ok (c : scfg) : Prop := (0 <= hold_ns <= c_lease c)%Z /\ (0 <= req_hold_ns <= c_lease c)%Z.
+Definition TInv (c : scfg) (now : Z) (t : table) : Prop := WInv c now t /\ upper (now + c_lease c)%Z t.
+
+Lemma initial_TInv c : cfg_srv_ok c -> TInv c 0%Z (initial_table c).
+Proof.
+  intros Hc. split; [apply initial_WInv; exact Hc|]. destruct (initial_table_ok c) as [_ A].
+  intros q e Hn Hp. rewrite (A q e Hn) in Hp. discriminate.
+Qed.
+
+Lemma accepted_round_TInv c now t r t' : durations_ok c -> TInv c now t -> (now <= r_t r)%Z -> accept_round c t r = RAcc t' ->
+  TInv c (round_end r) t' /\ grows t t'.
+Proof.
+  intros [[Hh0 Hh1] [Hq0 Hq1]] [Hinv Hup] Hnow Ha.
+  destruct (accepted_round_WInv c now t r t' Hinv Hnow Ha) as [Hinv' Hend']. split; [split; [exact Hinv'|]|].
+  all: destruct Hinv as [U S]; destruct (accepted_round_cases c t r t' Ha) as [Hcase _].
+  all: assert (Hend : forall f, r_outs r = [f] -> (r_t r <= of_t f)%Z -> round_end r = of_t f) by (intros f Ho Ht; unfold round_end; rewrite Ho; cbn; lia).
+  all: assert (Hsil : r_outs r = [] -> round_end r = r_t r) by (intros Ho; unfold round_end; rewrite Ho; reflexivity).
+  all: destruct Hcase as [? Ho ?|? ? ? ? ? Ho ?|? ? ? ? ? ? Ho ?|? ? ? ? ? o ? ? ? ? ? Ho ?|src dst m ts y f Hdc o tl Hk Hd Hs Ho Hy Hfr Ht Hts Hov Hh
+                    |? ? ? ? o ? ? Ho ?|src dst m desired f Hdc o Hk Hcl Hmr Hb Ho Hfr Ht ?
+                    |src dst m desired f Hdc o Hk Hcl Hmr Hb Hh Hp Ho Hfr Ht|src dst m desired f t1 Hdc o Hk Hcl Hmr Hb Hh Hp Ho Hfr Ht Hu];
+    subst; try (rewrite (Hsil Ho); eapply upper_mono; [|exact Hup]; lia); try apply grows_refl.
+  - (* OFFER: upper *)
+    rewrite (Hend f Ho Ht). pose proof (hold_to_uip _ _ _ _ _ _ _ Hh) as Eu.
+    assert (U' : unique_live (of_t f) t) by (eapply unique_live_mono; [|exact U]; lia).
+    destruct (hold_effect _ _ _ _ _ _ _ _ _ Eu U' Hh) as (_ & Hu' & _). apply Hu'; [eapply upper_mono; [|exact Hup]; lia|lia].
+  - rewrite (Hend f Ho Ht). eapply upper_mono; [|exact Hup]. lia.
+  - (* NAK on conflict: upper *)
+    rewrite (Hend f Ho Ht). pose proof (in_managed_to_uip _ _ Hmr) as Eu.
+    assert (U' : unique_live (r_t r) t) by (eapply unique_live_mono; eauto).
+    destruct (hold_effect _ _ _ _ _ _ _ _ _ Eu U' Hh) as (_ & Hu' & _).
+    eapply upper_mono; [|apply (Hu' (r_t r + c_lease c)%Z); [eapply upper_mono; [|exact Hup]; lia|lia]]. lia.
+  - (* ACK: upper *)
+    rewrite (Hend f Ho Ht). pose proof (in_managed_to_uip _ _ Hmr) as Eu.
+    assert (U0 : unique_live (r_t r) t) by (eapply unique_live_mono; eauto).
+    assert (U1 : unique_live (r_t r) t1) by (eapply t_hold_unique; eauto).
+    assert (U2 : unique_live (of_t f) t1) by (eapply unique_live_mono; eauto).
+    destruct (hold_effect _ _ _ _ _ _ _ _ _ Eu U0 Hh) as (_ & Hu1 & _).
+    assert (Up1 : upper (of_t f + c_lease c)%Z t1).
+    { eapply upper_mono; [|apply (Hu1 (r_t r + c_lease c)%Z); [eapply upper_mono; [|exact Hup]; lia|lia]]. lia. }
+    assert (Hmono : forall p e, live_at (of_t f) t1 p e -> e_ip e = desired -> e_duid e = rc_duid c m -> e_perm e = false -> (e_until e <= of_t f + c_lease c)%Z).
+    { intros p e (Hn & _) _ _ Hp'. exact (Up1 p e Hn Hp'). }
+    destruct (update_effect _ _ _ _ _ _ _ _ _ Eu U2 Hmono Hu) as (_ & Hu2 & _). apply Hu2; [exact Up1|lia].
+  - (* OFFER: grows *)
+    pose proof (hold_to_uip _ _ _ _ _ _ _ Hh) as Eu.
+    assert (U' : unique_live (of_t f) t) by (eapply unique_live_mono; [|exact U]; lia).
+    destruct (hold_effect _ _ _ _ _ _ _ _ _ Eu U' Hh) as (Hg & _ & _). exact Hg.
+  - (* NAK on conflict: grows *)
+    pose proof (in_managed_to_uip _ _ Hmr) as Eu.
+    assert (U' : unique_live (r_t r) t) by (eapply unique_live_mono; eauto).
+    destruct (hold_effect _ _ _ _ _ _ _ _ _ Eu U' Hh) as (Hg & _ & _). exact Hg.
+  - (* ACK: grows *)
+    pose proof (in_managed_to_uip _ _ Hmr) as Eu.
+    assert (U0 : unique_live (r_t r) t) by (eapply unique_live_mono; eauto).
+    assert (U1 : unique_live (r_t r) t1) by (eapply t_hold_unique; eauto).
+    assert (U2 : unique_live (of_t f) t1) by (eapply unique_live_mono; eauto).
+    destruct (hold_effect _ _ _ _ _ _ _ _ _ Eu U0 Hh) as (Hg1 & Hu1 & _).
+    assert (Up1 : upper (of_t f + c_lease c)%Z t1).
+    { eapply upper_mono; [|apply (Hu1 (r_t r + c_lease c)%Z); [eapply upper_mono; [|exact Hup]; lia|lia]]. lia. }
+    assert (Hmono : forall p e, live_at (of_t f) t1 p e -> e_ip e = desired -> e_duid e = rc_duid c m -> e_perm e = false -> (e_until e <= of_t f + c_lease c)%Z).
+    { intros p e (Hn & _) _ _ Hp'. exact (Up1 p e Hn Hp'). }
+    destruct (update_effect _ _ _ _ _ _ _ _ _ Eu U2 Hmono Hu) as (Hg2 & _ & _). eapply grows_trans; eauto.
+Qed.
